@@ -92,6 +92,32 @@ def type_items(pool, extra, rnd, thorough):
     byexpr = {u.expr: u for u in pool + extra}
     for a, b in special:
         pairs.append((byexpr[a], byexpr[b]))
+    # the same unit under two spellings (different C++ types, equal dimension and magnitude): the
+    # QUOTIENT cancels although the types differ
+    def named(nm):
+        return byexpr["au::%s{}" % nm]
+    try:
+        hz, sec, m, n_, kg_expr = named("Hertz"), named("Seconds"), named("Meters"), named("Newtons"), "au::Kilo<au::Grams>{}"
+        g = named("Grams")
+        kg = U(kg_expr, g.dim, model.mul(g.mag, model.mag_from_fraction(1000)))
+        respelled = [
+            (hz, U("au::pow<-1>(au::Seconds{})", model.inv(sec.dim), model.inv(sec.mag))),
+            (named("Liters"), U("au::pow<3>(au::Deci<au::Meters>{})", model.power(m.dim, 3), model.power(model.mul(m.mag, model.mag_from_fraction(Fraction(1, 10))), 3))),
+            (n_, U("(%s * au::Meters{} / au::pow<2>(au::Seconds{}))" % kg_expr, model.div(model.mul(kg.dim, m.dim), model.power(sec.dim, 2)), model.div(model.mul(kg.mag, m.mag), model.power(sec.mag, 2)))),
+            (named("Joules"), U("(au::Newtons{} * au::Meters{})", model.mul(n_.dim, m.dim), model.mul(n_.mag, m.mag))),
+            (U("au::Kilo<au::Hertz>{}", hz.dim, model.mul(hz.mag, model.mag_from_fraction(1000))), U("au::pow<-1>(au::Milli<au::Seconds>{})", model.inv(sec.dim), model.inv(model.mul(sec.mag, model.mag_from_fraction(Fraction(1, 1000)))))),
+        ]
+        for ua in [m, sec, named("Feet")] + rnd.sample(pool, 6 if thorough else 3):
+            if ua.expr in NAMED_COLLISIONS:
+                continue
+            respelled.append((ua, U("(au::Unos{} * %s)" % ua.expr, ua.dim, ua.mag)))
+            respelled.append((ua, U("(%s * au::Percent{} * au::mag<100>())" % ua.expr, ua.dim, ua.mag)))
+        for a, b in respelled:
+            assert model.key(a.dim) == model.key(b.dim) and model.key(a.mag) == model.key(b.mag), (a.expr, b.expr)
+            pairs.append((a, b))
+            pairs.append((b, a))
+    except KeyError as e:
+        raise AnalysisBroken("library unit missing for the respelled pairs: %s" % e)
     for nm in ("Meters", "Feet"):
         sp = [s_.format(x="au::%s{}" % nm) for s_, _ in SAME_BASE_POWERS]
         combos = [(a, b) for a in sp for b in sp if a != b]
@@ -177,6 +203,11 @@ def guard_items(rnd, thorough):
             ]:
                 items.append(witness.Item("guard:%s/%s,%s" % (nm, r1, r2), h + "void w() { %s %s }" % (mk, code), exp, None,
                                           dict(desc="integer-division guard: `%s` with reps %s, %s" % (code, r1, r2))))
+    # unblock_int_div when the units cancel: by the statement ("collapsing to a raw number exactly when
+    # the units cancel") the result should be the raw quotient, as it is without the wrapper
+    items.append(witness.Item("guard:unblock_collapse", pre + "static_assert(std::is_same<decltype(au::make_quantity<A>(6) / au::make_quantity<A>(2)), int>::value, \"plain division collapses\");\n"
+                              "static_assert(std::is_same<decltype(au::make_quantity<A>(6) / au::unblock_int_div(au::make_quantity<A>(2))), int>::value, \"a / unblock_int_div(b) collapses when the units cancel\");",
+                              "accept", None, dict(desc="a / unblock_int_div(b) with cancelling units is a raw number, like a / b")))
     # unblock_int_div: value and unit
     items.append(witness.Item("guard:unblock_value", pre + "constexpr auto r = au::make_quantity<A>(7) / au::unblock_int_div(au::make_quantity<B>(2));\n"
                               "static_assert(r.in(A{} / B{}) == 3, \"value of unblocked integer division\");\n"
@@ -388,12 +419,12 @@ def body(ctx):
     npow = int_pow_values(ctx, ipre, rnd)
     ctx.coverage.update(dict(
         evaluations=len(items) * len(configs) + nob[0], distinct_nontrivial=len(items) + nob[0],
-        rule="W item per (unit pair, rep pair) asserting result type, collapse-to-raw-number iff the model product/quotient is unitless, unit exponents, rep and a constant value; per (unit, rep) for int_pow<-4..4>, sqrt, cbrt, 1/q; witness pairs for the integer-division guard and as_raw_number; IR wrapper pair per (operation, unit pair, rep pair) compared by DAG equality with the raw operator; int_pow<N> per (rep, N): recursive helper unfolded on the constant exponent, result is the monomial x^N and no intermediate has higher degree",
+        rule="W item per (unit pair, rep pair) asserting result type, collapse-to-raw-number iff the model product/quotient is unitless (also for a unit divided by a differently spelled equal unit: Hz / s^-1, L / dm^3, N / (kg m / s^2), u / (unos * u)), unit exponents, rep and a constant value; per (unit, rep) for int_pow<-4..4>, sqrt, cbrt, 1/q; witness pairs for the integer-division guard and as_raw_number; IR wrapper pair per (operation, unit pair, rep pair) compared by DAG equality with the raw operator; int_pow<N> per (rep, N): recursive helper unfolded on the constant exponent, result is the monomial x^N and no intermediate has higher degree",
         samples=[dict(key=items[0].key), dict(key=items[-1].key, code=items[-1].code)],
         exhaustive=False, w_items=len(items), w_mismatches=nbad, ir_pairs=nob[0], ir_equal=nob[1], configs=[c.name for c in configs], engine_stats=stats,
         int_pow_wrappers=npow,
         not_decided="rounding of int_pow beyond 'it is the power x^N formed from powers of no higher degree'"))
-    ctx.assumptions += ["unblock_int_div path: only acceptance, value and unit are checked (it returns a Quantity of the unitless unit rather than a raw number)"]
+    ctx.assumptions += ["unblock_int_div path: acceptance, value and unit are checked; that it does not collapse to a raw number when the units cancel is a listed known finding"]
 
 
 def main(argv=None):
